@@ -310,3 +310,44 @@ Theorem C06_unique_name_split :
   exists pre post, ss = pre ++ s :: post /\ nonexp I (Some n) pre /\ nonexp I (Some n) post.
 Proof. exact unique_name_split. Qed.
 Print Assumptions C06_unique_name_split.
+
+(* ---- a freshly constructed wrapper ----------------------------------------------------- *)
+(* InspectWrapper(source, expected_format=n, allowed_formats=allowed) over a table with
+   distinct names (ALL_FORMATS: C06_all_formats_wellformed) in which n is present and allowed *)
+Theorem C06_expected_abort_exact_fresh :
+  forall I eat finish complete fmatch (factory : list (str * I)) allowed n i0 cs,
+  NoDup (map fst factory) -> In (n, i0) factory -> allowed_key allowed n = true ->
+  exists w' tr,
+    w_run_stop I eat finish complete fmatch gen_shape (mk_wrapper I factory (Some n) allowed) (map InChunk cs) =
+    match first_abort I eat complete fmatch i0 cs with
+    | Some (j, a) => (w', tr, firstn j cs, Some (abort_exn a, Some (nth j cs [])), map InChunk (skipn (S j) cs))
+    | None => (w', tr, cs, None, [])
+    end.
+Proof. exact (fun I eat finish complete fmatch => expected_abort_exact_fresh I eat finish complete fmatch gen_shape gen_shape_ok). Qed.
+Print Assumptions C06_expected_abort_exact_fresh.
+
+(* expected_format=None: whatever the inspectors do, every chunk of every call is delivered *)
+Theorem C06_no_expectation_no_exception :
+  forall I eat finish complete fmatch (factory : list (str * I)) allowed inps w' recs,
+  w_run I eat finish complete fmatch gen_shape (mk_wrapper I factory None allowed) inps = (w', recs) ->
+  Forall (fun r => forall c, sr_in r = InChunk c -> sr_out r = OutChunk c) recs.
+Proof. exact (fun I eat finish complete fmatch => no_expectation_no_exception I eat finish complete fmatch gen_shape gen_shape_ok). Qed.
+Print Assumptions C06_no_expectation_no_exception.
+
+(* ---- detect_file_format ---------------------------------------------------------------- *)
+(* for every file content and whatever the inspectors do: the function returns the NAME of
+   one inspector or raises ImageFormatError (never None, never an inspector's exception); the
+   file has been closed and every inspector finished (close() in the finally clause).  The
+   chunk size is the regenerated one; only its positivity is used. *)
+Theorem C06_detect_file_format_total :
+  forall I eat finish complete fmatch (factory : list (str * I)) data,
+  let '(w, s, tr, r) := detect_file_format I eat finish complete fmatch gen_shape raw_lit_nonraw raw_lit_raw
+                          detect_chunk_size factory data in
+  ((exists nm, r = Ok (Some nm)) \/ r = Exn ImageFormatError) /\
+  f_closed s = true /\ w_finished w = true /\ f_data s = data.
+Proof.
+  exact (fun I eat finish complete fmatch factory data =>
+    detect_file_format_total I eat finish complete fmatch gen_shape gen_shape_ok raw_lit_nonraw raw_lit_raw
+      detect_chunk_size factory data detect_chunk_size_pos).
+Qed.
+Print Assumptions C06_detect_file_format_total.
